@@ -98,18 +98,21 @@ def linesLoop : Nat → Prog
   | 0 => done
   | n + 1 => seq (withNew .frombytes .derived .img (act (.pil .save .img))) (linesLoop n)
 
+/-- what kitty's `_render_image` and iterm2's LINES branch have in common:
+    `frame_img = …; img = self._get_render_data(…)[0]; raw = img.tobytes();
+     if frame_img is not img: self._close_image(img)` -/
+def rawPixelsCore (p : RP) : Prog :=
+  block [setFrameR p, getRenderData p false false, act (.pil .tobytes .img), act (.closeUnless .frameR .img)]
+
 /-- `_render_image(img, alpha, frame=…, …)` of the style/branch `v` -/
 def renderImage (v : Variant) (p : RP) : Prog :=
   match v with
   | .block =>
     block [setFrameR p, getRenderData p true true, act (.closeUnless .frameR .img)]
-  | .kitty =>
-    block [setFrameR p, getRenderData p false false, act (.pil .tobytes .img), act (.closeUnless .frameR .img)]
+  | .kitty => rawPixelsCore p
   | .itermWhole =>
     block [setFrameR p, getRenderData p false false, act (.pil .save .img), act (.closeUnless .frameR .img)]
-  | .itermLines rows =>
-    block [setFrameR p, getRenderData p false false, act (.pil .tobytes .img), act (.closeUnless .frameR .img),
-           linesLoop rows]
+  | .itermLines rows => seq (rawPixelsCore p) (linesLoop rows)
   | .itermNativeFile =>
     block [act (.rawOpen .file), act (.closeImage .img), tryFinally done (act (.rawClose .file))]
   | .itermNativeSave =>
